@@ -1462,9 +1462,9 @@ func runDiscover(dc *DiscoverCase, res *vkit.Result) {
 
 // ---- properties ------------------------------------------------------------------------------
 
-const rule = "provider cases = router (op.Provider / LegacyServer) x 6 config flags x storage capabilities (cc, te, device, extras) x issuer strategy (static https/http issuers with ports, paths, trailing slash; from Host; from Forwarded) x Host header x Forwarded header(s) x 1-3 further (Host, Forwarded) combinations sent to the same provider instance (same Host / other Forwarded, other Host / same Forwarded, both different, finally the first again; each document must name the issuer of its own request, its endpoints must be routed, fresh tokens must carry it; identical requests must get identical statements) x per-endpoint shape (default / custom path / absolute URL below the issuer / absolute URL elsewhere / nil on LegacyServer) x signing key x client auth method; each is judged from its own discovery document: every advertised endpoint below the issuer is requested (404/405 = not routed), all flows then use the advertised addresses, each of the 6 token-endpoint grants is probed with a registered, authenticated, complete request (advertised <=> not unsupported_grant_type), iss of every JWT issued == document issuer, each advertised PKCE method accepts the right and refuses a wrong verifier, an advertised request-object support makes a signed object override the query, client.Discover accepts the document for its issuer and refuses a near miss; " +
+const rule = "provider cases = router (op.Provider / LegacyServer) x 6 config flags x storage capabilities (cc, te, device, extras) x issuer strategy (static https/http issuers with ports, paths, trailing slash; from Host; from Forwarded) x Host header x Forwarded header(s) x 1-3 further (Host, Forwarded) combinations sent to the same provider instance (same Host / other Forwarded, other Host / same Forwarded, both different, finally the first again; each document must name the issuer of its own request, its endpoints must be routed, fresh tokens must carry it; identical requests must get identical statements) x per-endpoint shape (default / custom path / absolute URL below the issuer / absolute URL elsewhere / nil on LegacyServer) x signing key x client auth method; each is judged from its own discovery document: every advertised endpoint below the issuer is requested (404/405 = not routed), all flows then use the advertised addresses, each of the 6 token-endpoint grants is probed with a registered, authenticated, complete request (advertised <=> not unsupported_grant_type), iss of every JWT issued == document issuer, each advertised PKCE method accepts the right and refuses a wrong verifier, an advertised request-object support is tried with 1-3 generated request shapes (OIDC Core 6.1: each of redirect_uri, state, nonce, response_mode, prompt, max_age, login_hint, code_challenge as plain parameter / inside the object only / in both with different values / absent, scope and response_type plain or repeated (scope widened) in the object; aud as array / string / array with a further entry; signed by client web or mach; sent by GET query or POST form): the request must be accepted, the stored authorization request and the redirect must carry the object's value wherever the object has one and the plain value otherwise, a code challenge conveyed by the object must bind the code (right verifier accepted, superseded plain one refused); the other probes vary their shape too: authorization requests of the grant / PKCE probes by GET or POST, the machine client by client_secret_basic or (when enabled) client_secret_post, authorization / userinfo / end_session endpoints requested with GET and POST; client.Discover accepts the document for its issuer and refuses a near miss; " +
 	"issuer cases = strings assembled from a labelled grammar (empty / scheme / separator / userinfo / host / port / path / query / fragment) x insecure opt-in x strategy, verdict from the labels (excluded as grey: other schemes, userinfo, upper-case scheme, empty '?' or '#'); discover cases = asked issuer x relation of the served document's issuer (equal, 15 near misses, missing) x well-known override; " +
-	"non-trivial = provider configuration differing from the all-defaults one / issuer with a must-accept or must-reject verdict / document issuer differing from the asked one; distinct = configuration class (router, flags, capabilities, issuer, host, forwarded, endpoint shapes, alg, client auth) / issuer string x opt-in x strategy / (asked, served) pair"
+	"non-trivial = provider configuration differing from the all-defaults one / issuer with a must-accept or must-reject verdict / document issuer differing from the asked one; distinct = configuration class (router, flags, capabilities, issuer, host, forwarded, endpoint shapes, alg, client auth, authorization transport, request-object shapes) / issuer string x opt-in x strategy / (asked, served) pair"
 
 var prop = vkit.Prop[Case]{ID: "C19", Rule: rule, Gen: genCase, Run: run}
 
@@ -1529,6 +1529,22 @@ func latticeCase(cell int, variant string) Case {
 		} else {
 			pc.Endpoints = map[string]EPShape{"device_authorization": {Kind: "path", Path: "/dev/auth"}}
 		}
+	}
+	// request shapes, spread over the cells by moduli coprime to the flag bits
+	if cell%3 == 1 {
+		pc.AuthzVia = "post"
+	}
+	if pc.Post && cell%7 < 3 {
+		pc.MachAuth = "client_secret_post"
+	}
+	if pc.ReqObj {
+		sh := ROShape{Place: map[string]string{}, Via: []string{"", "post"}[cell%5%2], Client: []string{"", "", "mach"}[cell%11%3], Aud: []string{"", "string", "array-extra"}[cell%13%3]}
+		for i, p := range roParams {
+			if pl := p.places[(cell/(i%4+1)+i)%len(p.places)]; pl != "" {
+				sh.Place[p.name] = pl
+			}
+		}
+		pc.RO = []ROShape{sh}
 	}
 	first := View{Host: pc.Host, Forwarded: pc.Forwarded}
 	switch pc.IssuerMode {
